@@ -54,15 +54,17 @@ class Cube(Obj):
             c = Cube([[list(self.data[i][j]) for j in cols] for i in rows])
             c.as_matrix = True
             return c
-        if isinstance(idx, int):
+        if isinstance(idx, int) and not isinstance(idx, bool):
             if not 0 <= idx < self.n:
                 raise Unsupported("cube row out of range", node)
-            return self.data[idx]
-        if isinstance(idx, tuple) and all(isinstance(i, int) for i in idx):
+            return Mat(self.data[idx])          # a view: the cell lists are shared, writes go through
+        if isinstance(idx, tuple) and all(isinstance(i, int) and not isinstance(i, bool) for i in idx):
             v = self.data
             for i in idx:
+                if not 0 <= i < len(v):
+                    raise Unsupported("cube index out of range", node)
                 v = v[i]
-            return v
+            return Vec.view(v) if isinstance(v, list) else v
         raise Unsupported(f"cube index {idx!r}", node)
 
 
